@@ -17,6 +17,9 @@ CMPOPS = {ast.Eq: "==", ast.NotEq: "!=", ast.Lt: "<", ast.LtE: "<=", ast.Gt: ">"
           ast.Is: "is", ast.IsNot: "is not", ast.In: "in", ast.NotIn: "not in"}
 
 
+FLIP = {"==": "==", "!=": "!=", "<": ">", ">": "<", "<=": ">=", ">=": "<=", "is": "is", "is not": "is not"}
+
+
 class T:
     """immutable term; k = kind, a = tuple of children / payload, node = originating ast"""
     __slots__ = ("k", "a", "node", "_h")
@@ -413,7 +416,11 @@ class FuncAnalysis:
             parts = []
             left = e.left
             for op, right in zip(e.ops, e.comparators):
-                parts.append(T("cmp", (CMPOPS.get(type(op), "?"), rec(left), rec(right)), e))
+                o, l, r = CMPOPS.get(type(op), "?"), rec(left), rec(right)
+                # canonical orientation: a literal constant operand goes to the right (0 == x -> x == 0, 0 > x -> x < 0)
+                if l.k == "const" and r.k != "const" and o in FLIP:
+                    o, l, r = FLIP[o], r, l
+                parts.append(T("cmp", (o, l, r), e))
                 left = right
             if len(parts) == 1:
                 return parts[0]
